@@ -2,7 +2,7 @@
 
 C13.a handler table of SafeExpatParser      C13.b the refusal cannot be swallowed
 C13.c every defused open passes the scanner  C13.d per-mode decision table of is_defused
-C13.e who may parse
+C13.e who may parse                          C13.f scanner and parser read the same bytes (DefusableReader)
 """
 from __future__ import annotations
 
@@ -18,6 +18,24 @@ from .common import atom_forces, bool_atoms, call_nodes, cfg_of, guards, reach_c
 SAX = 'xmlschema.resources.sax'
 RES = 'xmlschema.resources.xml_resource.XMLResource'
 HANDLERS = ('EntityDeclHandler', 'UnparsedEntityDeclHandler', 'ExternalEntityRefHandler')
+
+
+def _stdlib_param_entity_mode():
+    """The mode the standard library's ExpatParser.reset() passes to SetParamEntityParsing (source read with ast, nothing is run)."""
+    import os
+    import sysconfig
+    path = os.path.join(sysconfig.get_path('stdlib'), 'xml', 'sax', 'expatreader.py')
+    try:
+        tree = ast.parse(open(path, encoding='utf-8').read())
+    except OSError:
+        return None
+    for cls in tree.body:
+        if isinstance(cls, ast.ClassDef) and cls.name == 'ExpatParser':
+            for m in cls.body:
+                if isinstance(m, ast.FunctionDef) and m.name == 'reset':
+                    modes = [text(cc.args[0]) for cc in calls(m) if isinstance(cc.func, ast.Attribute) and cc.func.attr == 'SetParamEntityParsing' and cc.args]
+                    return modes[-1] if modes else 'none'
+    return None
 
 
 def rule_a(ctx: Ctx) -> None:
@@ -73,6 +91,22 @@ def rule_a(ctx: Ctx) -> None:
             if isinstance(s, ast.Assign) and any(text(t).startswith('self._parser.') and text(t).endswith('Handler') for t in s.targets) \
                     and m.name != 'reset':
                 ctx.ob(rule, f'SafeExpatParser.{m.name} rebinds a parser handler', m.loc(s), False, text(s), key=f'SafeExpatParser|rebind|{m.name}')
+    # the external subset of a standalone document reaches ExternalEntityRefHandler only when parameter-entity parsing is ALWAYS:
+    # the base class (stdlib source, read with ast) selects a mode in its reset(); when that mode is not ALWAYS the subclass must override it
+    base_mode = _stdlib_param_entity_mode()
+    sets = [(n, cc) for n, cc in call_nodes(g, lambda cc: text(cc.func) == 'self._parser.SetParamEntityParsing')]
+    if base_mode is not None and not base_mode.endswith('_ALWAYS'):
+        good = [n for n, cc in sets if len(cc.args) == 1 and text(cc.args[0]).split('.')[-1] == 'XML_PARAM_ENTITY_PARSING_ALWAYS'
+                and not guards(ctx, reset, n) and sup and sup[0] in dom[n]]
+        last_ok = bool(good) and all(len(cc.args) == 1 and text(cc.args[0]).split('.')[-1] == 'XML_PARAM_ENTITY_PARSING_ALWAYS' for _, cc in sets)
+        ctx.ob(rule, 'SafeExpatParser.reset selects parameter-entity parsing ALWAYS (the base class selects '
+               f'{base_mode.split(".")[-1]})', reset.loc(), last_ok,
+               '' if last_ok else f'the expat parser is left in mode {base_mode.split(".")[-1]}: the external DTD subset of a document declared '
+               'standalone="yes" is skipped silently - ExternalEntityRefHandler is never called and the document is accepted',
+               key='SafeExpatParser|param-entity-mode')
+    else:
+        ctx.ob(rule, 'the base expat reader already parses parameter entities ALWAYS', reset.loc(), base_mode is not None, 'cannot read xml.sax.expatreader',
+               key='SafeExpatParser|param-entity-mode')
     ok = any('ExpatParser' in b for b in c.base_exprs)
     ctx.ob(rule, 'SafeExpatParser derives from the SAX expat reader', f'{c.module.relpath}:{c.node.lineno}', ok, '', key='SafeExpatParser|base')
     ctx.trusted.append('pyexpat calls the installed declaration handlers before any expansion (third-party)')
@@ -122,6 +156,23 @@ def rule_b(ctx: Ctx) -> None:
     rets = [r for r in g.nodes if r.kind == 'return']
     w = g.must_pass(g.entry, rets, loops, kinds='nTF')
     ctx.ob(rule, 'defuse_xml cannot return without scanning', f.loc(), w is None and bool(loops), '', key='defuse_xml|no-bypass')
+    # a scan that did not complete vouches for nothing: the parser that follows is configurable (XMLResource(iterparse=…)) and may
+    # read what expat could not; no handler of the try around the scan loop may lead to a normal return
+    hs = []
+    for t in walk_no_nested(f.node):
+        if isinstance(t, ast.Try) and loops and any(x is loops[0].ast for b in t.body for x in ast.walk(b)):
+            for h in t.handlers:
+                hs += [x for x in g.nodes if x.kind == 'handler' and x.ast is h]
+    ctx.floor(rule, 'handlers of the try around the scan loop', len(hs), 1)
+    for h in hs:
+        reach = g.reachable([h], kinds='nTF')
+        falls = [r for r in rets if r in reach] or ([g.exit] if g.exit in reach else [])
+        ok = not falls
+        ctx.ob(rule, f'defuse_xml: `except {text(h.ast.type) if h.ast.type else ""}` around the scan loop raises (an incomplete scan vouches for nothing)',
+               f.loc(h.ast), ok,
+               '' if ok else 'the handler falls through to `return fp`: a document that expat cannot read (e.g. UTF-32 without BOM) passes the scan unexamined and a '
+               'parser that can read it (XMLResource(iterparse=lxml.etree.iterparse)) expands its entities',
+               key=f'defuse_xml|scan-handler|{text(h.ast.type) if h.ast.type else ""}')
     ctx.explain('C13.b: no handler on the way from the pulldom loop to the caller of XMLResource.open catches a superclass of '
                 'XMLResourceForbidden without re-raising.')
 
@@ -305,4 +356,126 @@ def rule_e(ctx: Ctx) -> None:
                 'the default iterparse wrapper and the scanner; the loaders receive their stream from XMLResourceManager.')
 
 
-RULES = [rule_a, rule_b, rule_c, rule_d, rule_e]
+READER = 'xmlschema.utils.streams.DefusableReader'
+_PAST = ('self._pos > self._buffer_size', 'self._buffer_size < self._pos', 'self._pos >= self._buffer_size', 'self._buffer_size <= self._pos')
+_WITHIN = ('self._pos <= self._buffer_size', 'self._buffer_size >= self._pos', 'self._pos < self._buffer_size', 'self._buffer_size > self._pos')
+
+
+def _edges_forcing(tests, atoms_true, atoms_false):
+    """edges of `if` nodes on which (one of) ``atoms_true`` is known true or (one of) ``atoms_false`` is known false."""
+    out = set()
+    for n in tests:
+        at = bool_atoms(n.ast.test)
+        for a in at:
+            if a in atoms_false:          # want: the atom is false on the edge
+                if atom_forces(n.ast.test, a, True, True):
+                    out.add((n, 'F'))
+                if atom_forces(n.ast.test, a, True, False):
+                    out.add((n, 'T'))
+            if a in atoms_true:           # want: the atom is true on the edge
+                if atom_forces(n.ast.test, a, False, True):
+                    out.add((n, 'F'))
+                if atom_forces(n.ast.test, a, False, False):
+                    out.add((n, 'T'))
+    return out
+
+
+def rule_f(ctx: Ctx) -> None:
+    """The bytes the scanner saw are the bytes the parser gets: rewinding the buffered wrapper of a non-seekable stream."""
+    rule = 'C13.f'
+    idx = ctx.idx
+    # 1. defuse_xml: with rewind every return passes fp.seek(0); its OSError is converted, never dropped
+    f = idx.func(f'{SAX}.defuse_xml')
+    g = cfg_of(ctx, f)
+    rets = [n for n in g.nodes if n.kind == 'return']
+    tests = [n for n in g.nodes if n.kind == 'if']
+    seeks = [n for n, c in call_nodes(g, lambda c: text(c.func) == 'fp.seek' and len(c.args) == 1 and text(c.args[0]) == '0')]
+    ctx.floor(rule, '`fp.seek(0)` in defuse_xml', len(seeks), 1)
+    off = _edges_forcing(tests, (), ('rewind',))
+    live = reach_cut(g, [g.entry], off, avoid=seeks, kinds='nTF')
+    bad = [r for r in rets if r in live]
+    ctx.ob(rule, 'defuse_xml(rewind=True): every return passes `fp.seek(0)`', f.loc(seeks[0].ast) if seeks else f.loc(), bool(seeks) and not bad,
+           f'the return at line {bad[0].lineno} is reachable with rewind true and without rewinding: the parser continues where the scanner stopped' if bad else '',
+           key=f'{SAX}.defuse_xml|rewind')
+    sw = []
+    for s in seeks:
+        for m, lab in g.succ[s]:
+            if lab in 'xi' and m.kind == 'handler':
+                body_raises = any(isinstance(x, ast.Raise) for x in ast.walk(m.ast))
+                if not body_raises:
+                    sw.append(m)
+    ctx.ob(rule, 'a failed rewind is raised to the caller (no handler around `fp.seek(0)` ends without raising)', f.loc(seeks[0].ast) if seeks else f.loc(),
+           not sw, f'handler at line {sw[0].lineno} drops the failure of the rewind' if sw else '', key=f'{SAX}.defuse_xml|rewind-error')
+    wraps = [c for c in calls(f.node) if text(c.func) == 'DefusableReader']
+    ctx.ob(rule, 'a non-seekable BufferedIOBase is wrapped in DefusableReader before the scan', f.loc(wraps[0]) if wraps else f.loc(), len(wraps) == 1, '',
+           key=f'{SAX}.defuse_xml|wrap')
+    # 2. DefusableReader.seek: the position is moved without touching the wrapped stream only while the wrapped stream
+    #    has not been read past the buffer
+    f = idx.func(f'{READER}.seek')
+    g = cfg_of(ctx, f)
+    tests = [n for n in g.nodes if n.kind == 'if']
+    fpseek = [n for n, c in call_nodes(g, lambda c: text(c.func) == 'self._fp.seek')]
+    stores = [n for n in g.nodes if n.kind == 'stmt' and isinstance(n.ast, ast.Assign) and any(text(t) == 'self._pos' for t in n.ast.targets)]
+    ctx.floor(rule, '`self._fp.seek(…)` in DefusableReader.seek', len(fpseek), 2)
+    ctx.floor(rule, 'stores of self._pos in DefusableReader.seek', len(stores), 1)
+    within = _edges_forcing(tests, _WITHIN, _PAST)
+    live = reach_cut(g, [g.entry], within, avoid=fpseek, kinds='nTF')
+    bad = [n for n in stores if n in live]
+    det = ''
+    if bad:
+        cond = [text(n.ast.test) for n in tests if any(a in _PAST + _WITHIN for a in bool_atoms(n.ast.test)) and (n, 'F') not in within and (n, 'T') not in within]
+        det = (f'`self._pos = …` at line {bad[0].lineno} is reachable without `self._fp.seek(…)` although the wrapped stream may have been read past the buffer'
+               + (f' (the realignment is additionally conditioned by `{cond[0][:80]}`)' if cond else '')
+               + ': a non-seekable stream whose prolog exceeds the buffer is "rewound" silently and the parser receives the buffer followed by bytes the scanner never saw')
+    ctx.ob(rule, 'DefusableReader.seek moves the position without `self._fp.seek(…)` only when the wrapped stream was not read past the buffer',
+           f.loc(stores[0].ast) if stores else f.loc(), bool(stores) and not bad, det, key=f'{READER}.seek|realign')
+    sw = []
+    for s in fpseek:
+        for m, lab in g.succ[s]:
+            if lab in 'xi' and m.kind == 'handler':
+                sw.append(m)
+    ctx.ob(rule, 'DefusableReader.seek does not catch the failure of the wrapped stream\'s seek', f.loc(), not sw,
+           f'handler at line {sw[0].lineno}' if sw else '', key=f'{READER}.seek|no-handler')
+    # 3. DefusableReader._read_unlocked: the buffer is served only for positions inside it, the wrapped stream only from its own position
+    f = idx.func(f'{READER}._read_unlocked')
+    g = cfg_of(ctx, f)
+    tests = [n for n in g.nodes if n.kind == 'if']
+    inside = _edges_forcing(tests, ('self._pos < self._buffer_size', 'self._buffer_size > self._pos'), ('self._pos >= self._buffer_size', 'self._buffer_size <= self._pos'))
+    outside = _edges_forcing(tests, ('self._pos >= self._buffer_size', 'self._buffer_size <= self._pos'), ('self._pos < self._buffer_size', 'self._buffer_size > self._pos'))
+    slices = [n for n in g.nodes if n.kind == 'stmt' and any(isinstance(x, ast.Subscript) and text(x.value) == 'self._buffer' for x in ast.walk(n.ast))]
+    ctx.floor(rule, 'reads of self._buffer[…] in _read_unlocked', len(slices), 1)
+    live = reach_cut(g, [g.entry], inside, kinds='nTF')
+    bad = [n for n in slices if n in live]
+    ctx.ob(rule, '_read_unlocked serves `self._buffer[self._pos:]` only for a position inside the buffer', f.loc(slices[0].ast) if slices else f.loc(),
+           bool(slices) and not bad, f'line {bad[0].lineno} is reachable with the position at or past the end of the buffer' if bad else '',
+           key=f'{READER}._read_unlocked|inside')
+    ok = all(isinstance(x.slice, ast.Slice) and x.slice.lower is not None and text(x.slice.lower) == 'self._pos' and x.slice.upper is None
+             for n in slices for x in ast.walk(n.ast) if isinstance(x, ast.Subscript) and text(x.value) == 'self._buffer')
+    ctx.ob(rule, 'the buffered part is served from the current position', f.loc(slices[0].ast) if slices else f.loc(), ok, '', key=f'{READER}._read_unlocked|from-pos')
+    # every return in the "past the buffer" region comes from the wrapped stream alone
+    past = reach_cut(g, [g.entry], outside, kinds='nTF')
+    rets = [n for n in g.nodes if n.kind == 'return' and n not in past]
+    ok = bool(rets) and all(not any(isinstance(x, ast.Attribute) and text(x) == 'self._buffer' for x in ast.walk(r.ast)) for r in rets)
+    ctx.ob(rule, 'past the buffer _read_unlocked returns only what the wrapped stream delivers', f.loc(rets[0].ast) if rets else f.loc(), ok, '',
+           key=f'{READER}._read_unlocked|past')
+    # 4. the buffer is filled once, from the start of the wrapped stream, and never written again
+    c = idx.cls(READER)
+    writers = []
+    for m in c.methods.values():
+        for x in ast.walk(m.node):
+            if isinstance(x, (ast.Assign, ast.AugAssign)):
+                tg = x.targets if isinstance(x, ast.Assign) else [x.target]
+                if any(text(t).startswith('self._buffer') and not text(t).startswith('self._buffer_size') or text(t) == 'self._buffer_size' for t in tg):
+                    writers.append((m.name, text(x)[:50]))
+            elif isinstance(x, ast.Call) and isinstance(x.func, ast.Attribute) and text(x.func.value) == 'self._buffer' and \
+                    x.func.attr in ('extend', 'append', 'insert', 'pop', 'remove', 'reverse', '__setitem__'):
+                writers.append((m.name, text(x)[:50]))
+    outside_init = [w for w in writers if w[0] != '__init__']
+    ctx.ob(rule, 'the buffer and its size are written only by __init__ (close() may clear it)', c.methods['__init__'].loc(), bool(writers) and not outside_init,
+           f'{outside_init[0][0]}: `{outside_init[0][1]}`' if outside_init else '', key=f'{READER}|buffer-writers')
+    ctx.explain('C13.f: the scanner and the parser read the same bytes — defuse_xml rewinds on every return and propagates a failed rewind; '
+                'DefusableReader.seek changes the position without seeking the wrapped stream only on edges where `self._pos > self._buffer_size` is known false '
+                '(truth tables of the tests, edge-cut reachability); _read_unlocked serves the buffer only inside it; the buffer is written once.')
+
+
+RULES = [rule_a, rule_b, rule_c, rule_d, rule_e, rule_f]
